@@ -19,7 +19,7 @@ ASSUMPTIONS = ["the simulated device is instantaneous, so an empty read while a 
                "schedules beyond the preemption bound are sampled, not enumerated"]
 SHARDS = {"quick": 16, "thorough": 16}
 TIME_BUDGET = {"quick": 90, "thorough": 1200}
-FLOORS = {"quick": {"schedules": 2500, "distinct": 1500, "packets_parked": 2000, "put_wrapper_calls": 2000, "enumerated_schedules": 500, "async_schedules": 300},
+FLOORS = {"quick": {"schedules": 2500, "distinct": 1500, "packets_parked": 2000, "put_wrapper_calls": 2000, "enumerated_schedules": 500, "async_schedules": 300, "free_runs": 100},
           "thorough": {"schedules": 40000, "distinct": 25000, "enumerated_schedules": 8000}}
 EXHAUSTIVE = {"quick": False, "thorough": False}
 
@@ -74,6 +74,8 @@ def gen_cases(tier, seed):
             if tier == "quick" and impl == "async" and si % 2:
                 continue
             yield {"kind": "enum", "impl": impl, "scenario": si, "bound": bound, "max_runs": 400 if tier == "quick" else 6000}
+    for i in range(60 if tier == "quick" else 1200):
+        yield {"kind": "free", "impl": "sync", "seed": "%d:free%d" % (seed, i)}
     n = 2600 if tier == "quick" else 40000
     for i in range(n):
         yield {"kind": ("rand", "pct", "rand", "rand")[i % 4], "impl": "async" if i % 5 == 0 else "sync", "seed": "%d:%d" % (seed, i), "line": i % 5 != 0 and i % 2 == 0}
@@ -255,9 +257,113 @@ def run_schedule(impl, actors_steps, strategy, line=False, dims=None):
         sched.ManagedAsyncLock.sched = None
 
 
+def run_free(actors_steps, seed, dims):
+    """free-running mode: no baton, real OS scheduling of real threads with real threading.Lock objects, a tiny switch interval
+    and random sleep(0)/micro-sleeps injected at source lines of the I/O manager and the store.  It exists to make sure the
+    controlled mode's yield-point set is not hiding a window.  Verdicts are the same logical ones (results, lost packets)."""
+    import sys
+    import threading
+    import time as _time
+    from vlib import locks
+    res = {"viol": [], "k1": 0, "parked": 0, "put_calls": 0, "line_events": 0, "watchdog": False}
+    spy = PutSpy()
+    spy.actor = threading.get_ident
+    rng = random.Random(seed)
+    old_interval = sys.getswitchinterval()
+    locks.uninstall()
+    mon = sys.monitoring
+    tool = 4
+    codes = sched.repo_code_objects()
+    counter = [0]
+
+    def line_cb(code, line):
+        counter[0] += 1
+        r = (counter[0] * 2654435761 + line) & 0xFFFF
+        if r < 0x3000:
+            _time.sleep(0)
+        elif r < 0x3200:
+            _time.sleep(0.00002)
+    try:
+        sim = simdev.SimDevice(rng=random.Random(rng.random()), maxdata=dims["maxdata"], remote_ids=dims["remote"])
+        sess = session.Session("sync", sim=sim, checked_locks=False, frag=dims["frag"], empty_rate=0.0, budget=200000, timeouts_cost_time=False)
+        assert sess.call("connect").ok
+        runners = [scen.Runner(sess, {"dims": dims, "steps": st_}) for st_ in actors_steps]
+        results = [[] for _ in actors_steps]
+        tid = {}
+        crashed = []
+
+        def body(ai):
+            tid[threading.get_ident()] = ai
+            try:
+                for i, step in enumerate(actors_steps[ai]):
+                    results[ai].append((step,) + runners[ai].run_step(i, step))
+            except BaseException as e:  # noqa
+                crashed.append((ai, e))
+        mon.use_tool_id(tool, "verif-free")
+        mon.register_callback(tool, mon.events.LINE, line_cb)
+        for c in codes:
+            mon.set_local_events(tool, c, mon.events.LINE)
+        sys.setswitchinterval(1e-6)
+        threads = [threading.Thread(target=body, args=(ai,), daemon=True) for ai in range(len(actors_steps))]
+        for t in threads:
+            t.start()
+        for t in threads:
+            t.join(30)
+        res["watchdog"] = any(t.is_alive() for t in threads)
+    finally:
+        sys.setswitchinterval(old_interval)
+        try:
+            for c in codes:
+                mon.set_local_events(tool, c, 0)
+            mon.register_callback(tool, mon.events.LINE, None)
+            mon.free_tool_id(tool)
+        except Exception:  # noqa
+            pass
+        spy.remove()
+    res["line_events"] = counter[0]
+    res["put_calls"] = spy.calls
+    where = "free-running sync %s" % " || ".join("+".join(st_["op"] + ":" + st_.get("cmd", st_.get("path", "")) for st_ in steps) for steps in actors_steps)
+    if res["watchdog"]:
+        # a real deadlock or a lost wake-up that blocks forever cannot be told from a slow machine here: inconclusive
+        return res
+    dropped = {}
+    for (actor, a0, a1, cmd, stored) in spy.events:
+        stt = sim.streams.get(a1)
+        owner = tid.get(stt.owner) if stt is not None else None
+        if stored:
+            res["parked"] += 1
+        if cmd == repo.constants.CLSE and not stored and stt is not None and stt.remote == a0 and owner is not None and owner != tid.get(actor):
+            dropped[a1] = (tid.get(actor), owner)
+    for (ai, e) in crashed:
+        res["viol"].append({"mechanism": "actor-crashed:%s" % type(e).__name__, "detail": "%s: actor %d: %s" % (where, ai, str(e)[:160])})
+    for ai, rs in enumerate(results):
+        for (step, o, v) in rs:
+            if o.ok and not v:
+                continue
+            if not o.ok and o.exc_name() in ("TcpTimeoutException", "AdbTimeoutError"):
+                mine = [x for x in sim.all_streams if tid.get(x.owner) == ai and x.local in dropped]
+                if mine:
+                    res["k1"] += 1
+                    res["viol"].append({"mechanism": K1, "detail": "%s: actor %d's %s timed out after another thread read the CLSE of its stream and the store dropped it" % (where, ai, step["op"])})
+                else:
+                    res["viol"].append({"mechanism": "packet-lost", "detail": "%s: actor %d's %s found the wire empty while waiting for its packet: %s" % (where, ai, step["op"], o.brief(120))})
+            elif not o.ok:
+                res["viol"].append({"mechanism": "raised:%s" % (o.exc_name() or o.kind), "detail": "%s: actor %d's %s raised %s" % (where, ai, step["op"], o.brief(160))})
+            else:
+                res["viol"].append({"mechanism": "wrong-result:" + v[0]["mechanism"], "detail": "%s: actor %d: %s" % (where, ai, v[0]["detail"][:200])})
+    if sess.core.mutex_violations:
+        res["viol"].append({"mechanism": "transport-not-exclusive", "detail": "%s: %d transport calls overlapped in real time" % (where, sess.core.mutex_violations)})
+    for mv in sess.monitor.of("C02") + sess.monitor.of("C14"):
+        res["viol"].append({"mechanism": "monitor:%s:%s" % (mv.prop, mv.rule), "detail": "%s: %s" % (where, mv.detail)})
+    for r in runners:
+        r.cleanup()
+    sess.dispose()
+    return res
+
+
 def run_case(case):
     stats = {"schedules": 0, "enumerated_schedules": 0, "async_schedules": 0, "k1_occurrences": 0, "packets_parked": 0, "put_wrapper_calls": 0, "deadlocks": 0, "max_switches": 0,
-             "line_yields": 0, "schedules_with_switch": 0, "enumeration_complete": 0, "enumeration_truncated": 0}
+             "line_yields": 0, "schedules_with_switch": 0, "enumeration_complete": 0, "enumeration_truncated": 0, "free_runs": 0, "free_line_events": 0, "free_watchdog": 0}
     viol = []
     sigs = set()
     matrix = {}
@@ -281,6 +387,31 @@ def run_case(case):
             if len(viol) < 40:
                 viol.append(v)
 
+    if case["kind"] == "free":
+        rng = gen.rng_for("C06free", case["seed"])
+        steps = []
+        k = 0
+        for a in range(rng.choice([2, 3, 3])):
+            mine = []
+            for _ in range(rng.choice([2, 3])):
+                mine.append(rng.choice(POOL)(k))
+                k += 1
+            steps.append(mine)
+        dims = {"maxdata": rng.choice([4096, 65536]), "remote": rng.choice(gen.REMOTE_REGIMES), "id_start": 0, "frag": rng.choice(["whole", "minus1"]), "empty_rate": 0.0, "noise": []}
+        for rep in range(4):
+            res = run_free(steps, "%s-%d" % (case["seed"], rep), dims)
+            stats["free_runs"] += 1
+            stats["free_line_events"] += res["line_events"]
+            stats["k1_occurrences"] += res["k1"]
+            stats["packets_parked"] += res["parked"]
+            stats["put_wrapper_calls"] += res["put_calls"]
+            stats["free_watchdog"] += 1 if res["watchdog"] else 0
+            viol.extend(res["viol"][:5])
+        seen = {}
+        for v in viol:
+            seen.setdefault(v["mechanism"], v)
+        return {"sig": "free|%s" % case["seed"], "violations": list(seen.values()), "stats": stats, "evaluations": 4,
+                "sample": {"case": case, "actors": [[s_["op"] for s_ in a] for a in steps], "line_events": stats["free_line_events"], "parked": stats["packets_parked"]} if case["seed"].endswith("free3") else None}
     if case["kind"] == "enum":
         steps = FIXED[case["scenario"]]
 
